@@ -24,10 +24,12 @@ Definition sx_op (s : sx) : option op :=
   match s with
   | SL [SZ 0%Z; eb; lat] =>
       bind (sx_list sx_edge eb) (fun eb' => bind (sx_list sx_nat lat) (fun lat' => Some (NewBN eb' lat')))
-  | SL [SZ 1%Z; a; xs] =>
-      bind (sx_nat a) (fun a' => bind (sx_list (sx_pair sx_nat sx_bool) xs) (fun xs' => Some (AddNodes a' xs')))
-  | SL [SZ 2%Z; a; es] =>
-      bind (sx_nat a) (fun a' => bind (sx_list sx_edge es) (fun es' => Some (AddEdges a' es')))
+  | SL [SZ 1%Z; a; xs; ws; lat] =>
+      bind (sx_nat a) (fun a' => bind (sx_list sx_nat xs) (fun xs' => bind (sx_list sx_nat ws) (fun ws' =>
+      bind (sx_list sx_bool lat) (fun lat' => Some (AddNodes a' xs' ws' lat')))))
+  | SL [SZ 2%Z; a; es; ws] =>
+      bind (sx_nat a) (fun a' => bind (sx_list sx_edge es) (fun es' => bind (sx_list sx_nat ws) (fun ws' =>
+      Some (AddEdges a' es' ws'))))
   | SL [SZ 3%Z; a; xs] =>
       bind (sx_nat a) (fun a' => bind (sx_list sx_nat xs) (fun xs' => Some (RemoveNodes a' xs')))
   | SL [SZ 4%Z; a; cs] =>
@@ -48,18 +50,20 @@ Definition sx_op (s : sx) : option op :=
   end.
 
 Definition of_err (e : err) : sx :=
-  SZ (match e with EValue => 1 | EAttr => 2 | ENotImpl => 3 | ENx => 4 | EBadId => 5 end)%Z.
+  SZ (match e with EValue => 1 | EAttr => 2 | ENotImpl => 3 | ENx => 4 | EBadId => 5 | EIndex => 6 end)%Z.
 Definition of_out (o : out) : sx := match o with Ok => SZ 0%Z | Err e => of_err e end.
 Definition of_edge := of_pair of_nat of_nat.
 Definition of_graph (g : digraph) : list sx := [of_list of_nat (nodes g); of_list of_edge (edges g)].
 Definition of_cpd (c : cpd) : sx :=
   SL [of_nat (c_var c); of_nat (c_vcard c); of_list of_nat (c_ev c); of_list of_nat (c_ecard c);
       of_list (of_list of_Qc) (c_cols c)].
-(* [nodes; edges; latents location; latents; [(cpd location, cpd) ...]] *)
+(* [nodes; edges; latents location; latents; [(cpd location, cpd) ...]; node weight log; edge weight log] *)
 Definition of_model (s : state) (m : bn) : sx :=
   SL (of_graph (bg m) ++
       [of_nat (blat m); of_list of_nat (get_l s (blat m));
-       of_list (fun l => SL [of_nat l; of_cpd (get_c s l)]) (bcpds m)]).
+       of_list (fun l => SL [of_nat l; of_cpd (get_c s l)]) (bcpds m);
+       of_list (of_pair of_nat of_nat) (bnw m);
+       of_list (fun e => SL [of_nat (fst (fst e)); of_nat (snd (fst e)); of_nat (snd e)]) (bew m)]).
 Definition of_state (s : state) : sx := of_list (of_model s) (ms s).
 
 Fixpoint trace (s : state) (ops : list op) : list sx :=
@@ -119,7 +123,9 @@ Definition sx_clique := sx_pair sx_nat (sx_list sx_nat).
 Definition sx_jop (s : sx) : option jop :=
   match s with
   | SL [SZ 0%Z; xs] => bind (sx_list sx_nat xs) (fun xs' => Some (JAddNodes xs'))
-  | SL [SZ 1%Z; es] => bind (sx_list (sx_pair sx_clique sx_clique) es) (fun es' => Some (JAddEdges es'))
+  | SL [SZ 1%Z; es; ws] =>
+      bind (sx_list (sx_pair sx_clique sx_clique) es) (fun es' => bind (sx_list sx_nat ws) (fun ws' =>
+      Some (JAddEdges es' ws')))
   | _ => None
   end.
 Fixpoint jtrace (g : digraph) (ops : list jop) : list sx :=
